@@ -918,3 +918,240 @@ func TestC08_Replay(t *testing.T) {
 		fmt.Printf("VERIF-KF key=%s reproduced=%v file=%s %s\n", key, rerr != nil, f, msg)
 	}
 }
+
+// ---------------------------------------------------------------------------------------------
+// C16: log compaction preserves the recoverable state, even if interrupted.
+// The history spreads over 1..4 append files (+ a rewrite file from earlier compactions); then one compaction
+// runs synchronously in the harness goroutine and the hook points of the rewrite path copy the directory after
+// every file-system mutation. Every image (and the final directory) must recover to the state recovered from the
+// pre-compaction image - twice in a row, because the first recovery compacts again at start-up.
+
+var c16PointNames = map[int]string{6: "rewrite.aof.tmp written and closed", 7: "an input file removed", 8: "its value file removed",
+	9: "rewrite.aof.tmp renamed to rewrite.aof", 10: "rewrite.aof.tmp.dat renamed", 11: "old append file closed", 12: "new append file opened"}
+
+const c16KeyRemoveBeforeRename = "C16:crash-after-inputs-removed-before-rename"
+const c16KeyBetweenRenames = "C16:crash-between-the-two-renames"
+
+type c16Info struct {
+	inputs   int
+	images   int
+	skipped  int
+	released bool
+	rewrite  bool
+}
+
+func c16Run(c *aCase, next func(e *aEnv) []aOp) (info c16Info, err error) {
+	e, msg := pRunHistory(c, next)
+	if e == nil {
+		return info, fmt.Errorf("%s", msg)
+	}
+	if msg != "" {
+		return info, fmt.Errorf("%s\n%s", msg, e.history())
+	}
+	hist := e.history()
+	aof := e.inst.slock.aof
+	info.released = e.mon.info.holdEndKinds["unlock"] || e.mon.info.holdEndKinds["unlock-one-level"]
+	pre := vScratchDir("c16pre")
+	if cerr := vCopyDir(c.DataDir, pre); cerr != nil {
+		e.close()
+		return info, cerr
+	}
+	defer os.RemoveAll(pre)
+	if ents, rerr := os.ReadDir(pre); rerr == nil {
+		for _, en := range ents {
+			n := en.Name()
+			if strings.HasPrefix(n, "append.aof.") && !strings.HasSuffix(n, ".dat") {
+				info.inputs++
+			}
+			if n == "rewrite.aof" {
+				info.rewrite = true
+			}
+		}
+	}
+	// the compaction, with a directory image after every file-system mutation
+	type image struct {
+		point int
+		dir   string
+	}
+	var images []image
+	known := vIsKnown(c16KeyRemoveBeforeRename)
+	removed := false
+	vSetYieldExtra(func(point int) {
+		name, ok := c16PointNames[point-verifPointAofRewrite+5]
+		_ = name
+		if !ok {
+			return
+		}
+		p := point - verifPointAofRewrite + 5
+		if p == 7 || p == 8 {
+			removed = true
+		}
+		if p == 9 {
+			removed = false
+		}
+		if known && removed {
+			info.skipped++
+			return
+		}
+		if p == 9 && vIsKnown(c16KeyBetweenRenames) {
+			info.skipped++
+			return
+		}
+		d := vScratchDir("c16img")
+		if vCopyDir(c.DataDir, d) == nil {
+			images = append(images, image{p, d})
+		}
+	})
+	cmsg := aSafe(nil, func() {
+		vAofIdle(aof)
+		aof.aofGlock.Lock()
+		rerr := aof.RewriteAofFile(false)
+		aof.aofGlock.Unlock()
+		if rerr == nil {
+			aof.rewriteAofFiles()
+		}
+	})
+	vSetYieldExtra(func(int) {})
+	defer func() {
+		for _, im := range images {
+			os.RemoveAll(im.dir)
+		}
+	}()
+	if cmsg != "" {
+		e.close()
+		return info, fmt.Errorf("compaction: %s\n--- history ---\n%s", cmsg, hist)
+	}
+	e.quiesce()
+	live := pSnapshot(e.inst.slock)
+	post := vScratchDir("c16post")
+	cerr := vCopyDir(c.DataDir, post)
+	e.close()
+	if cerr != nil {
+		return info, cerr
+	}
+	images = append(images, image{0, post})
+	info.images = len(images)
+
+	want, winst, rerr := c08RecoverDir(c, pre)
+	if rerr != nil {
+		return info, fmt.Errorf("start on the pre-compaction image failed: %v\n--- history ---\n%s", rerr, hist)
+	}
+	winst.vClose(false, false)
+	for _, im := range images {
+		what := "final directory after the compaction"
+		if im.point != 0 {
+			what = fmt.Sprintf("crash image after '%s'", c16PointNames[im.point])
+		}
+		dump := pDumpDir(im.dir)
+		got, inst, rerr := c08RecoverDir(c, im.dir)
+		if rerr != nil {
+			return info, fmt.Errorf("%s: start failed: %v\n%s--- history ---\n%s", what, rerr, dump, hist)
+		}
+		if err := pEqualStates(want, got, what+" vs. pre-compaction image"); err != nil {
+			inst.vClose(false, false)
+			return info, fmt.Errorf("%v\nimage:\n%s--- history ---\n%s", err, dump, hist)
+		}
+		// recover once more from what that start left behind (it compacted again at start-up)
+		vAofIdle(inst.slock.aof)
+		inst.slock.aof.FlushWithLocked()
+		d2 := vScratchDir("c16again")
+		cerr := vCopyDir(im.dir, d2)
+		inst.vClose(false, false)
+		if cerr != nil {
+			return info, cerr
+		}
+		dump2 := pDumpDir(d2)
+		again, inst2, rerr := c08RecoverDir(c, d2)
+		os.RemoveAll(d2)
+		if rerr != nil {
+			return info, fmt.Errorf("%s: second start failed: %v\n%s--- history ---\n%s", what, rerr, dump2, hist)
+		}
+		inst2.vClose(false, false)
+		if err := pEqualStates(want, again, what+", recovered a second time, vs. pre-compaction image"); err != nil {
+			return info, fmt.Errorf("%v\nimage:\n%safter the first recovery:\n%s--- history ---\n%s", err, dump, dump2, hist)
+		}
+	}
+	// the final directory also recovers the live persisted state (as C07)
+	at := time.Now().Unix()
+	final, finst, rerr := c08RecoverDir(c, post)
+	if rerr == nil {
+		finst.vClose(false, false)
+		if err := pCompareRecovered(live, final, at, "restart after the compaction"); err != nil {
+			return info, fmt.Errorf("%v\nlive:\n%srecovered:\n%s--- history ---\n%s", err, live, final, hist)
+		}
+	}
+	return info, nil
+}
+
+func c16Gen(t *rapid.T) (*aCase, func(e *aEnv) []aOp) {
+	c := pGenCase(t, "C16")
+	c.EpochOff = 15
+	n := rapid.IntRange(3, 26).Draw(t, "nOps")
+	fresh := 0
+	return c, func(e *aEnv) []aOp {
+		if len(c.Ops) >= n {
+			return nil
+		}
+		var ops []aOp
+		switch x := rapid.IntRange(0, 99).Draw(t, "rot"); {
+		case x < 5:
+			ops = []aOp{{K: "rotate"}}
+		case x < 16:
+			ops = []aOp{{K: "rotate-only"}}
+		default:
+			ops = aGenOps(t, e, pProfile, &fresh)
+		}
+		c.Ops = append(c.Ops, ops...)
+		return ops
+	}
+}
+
+func TestC16_Compaction(t *testing.T) {
+	st := vstat("TestC16_Compaction")
+	rapid.Check(t, func(t *rapid.T) {
+		c, gen := c16Gen(t)
+		info, err := c16Run(c, gen)
+		cls := []string{"fault_cases"}
+		if info.inputs >= 2 {
+			cls = append(cls, ">=2 append files compacted")
+		}
+		if info.rewrite {
+			cls = append(cls, "existing rewrite file")
+		}
+		if info.released {
+			cls = append(cls, "released hold in the inputs")
+		}
+		st.Class("crash images", int64(info.images))
+		for i := 0; i < info.skipped; i++ {
+			st.Exclude("crash image between the removal of the inputs and the rename of rewrite.aof.tmp (known finding " + c16KeyRemoveBeforeRename + ")")
+		}
+		st.Case(info.inputs >= 2 && info.rewrite && info.released, c.fingerprint(), cls, func() interface{} { return c })
+		if err != nil {
+			vFail(t, "TestC16_Compaction", "C16:"+aViolKey(strings.SplitN(err.Error(), "\n", 2)[0]), c, "%v", err)
+		}
+	})
+}
+
+func TestC16_Replay(t *testing.T) {
+	for _, f := range vReplayFiles("C16") {
+		var c aCase
+		key, err := vLoadReplay(f, &c)
+		if err != nil {
+			t.Fatalf("cannot load replay %s: %v", f, err)
+		}
+		c.Prop = "C16"
+		i := 0
+		_, rerr := c16Run(&c, func(e *aEnv) []aOp {
+			if i >= len(c.Ops) {
+				return nil
+			}
+			i++
+			return c.Ops[i-1 : i]
+		})
+		msg := ""
+		if rerr != nil {
+			msg = strings.SplitN(rerr.Error(), "\n", 2)[0]
+		}
+		fmt.Printf("VERIF-KF key=%s reproduced=%v file=%s %s\n", key, rerr != nil, f, msg)
+	}
+}
